@@ -57,3 +57,14 @@ package stdlib_contracts
 //@ ensures[nil] (m == nil) == (result == nil)
 //@ ensures[fresh] m != nil ==> fresh(result)
 //@ ensures[same] m != nil ==> forallkeys(m, k, has(result, k) == has(m, k) && (has(m, k) ==> result[k] == m[k]))
+
+// Concatenation into a new slice (nothing existing is written).
+//@ package slices
+//@ func Concat[*]
+//@ assumed
+//@ pure
+//@ ensures len(result) == 0 || fresh(result)
+//@ func Clone[*]
+//@ assumed
+//@ pure
+//@ ensures (len(result) == 0 || fresh(result)) && len(result) == len(s) && forall(i, 0, len(s), result[i] == s[i])
